@@ -47,7 +47,7 @@ def run(ctx, rep):
     from rules import C17, C02, C03
     C17.check_extend_sites(ctx, rep, "C10.a")
     n = borrow(rep, ctx, C02, lambda o: o.rule == "C02.c", "C10.b")
-    rep.floor("C10.b", "borrowed obligations", n, 8)
+    rep.floor("C10.b", "borrowed obligations", n, 5)
     n = borrow(rep, ctx, C02, lambda o: o.rule == "C02.d" and "/executor/" in o.key and ("/deferred/" in o.key or "Undecided" in o.key), "C10.c")
     rep.floor("C10.c", "borrowed obligations", n, 6)
     n = borrow(rep, ctx, C03, lambda o: o.rule == "R-ORDER" and re.search(r"/R-ORDER/(13|13b|14)/", o.key), "C10.e")
